@@ -752,15 +752,30 @@ def parse_cache_protocol():
                 if re.search(r"self\.globals_by_index\[[^\]]+\] = value;|self\.globals\.insert\(name, value\);", body) and "value: Value" in m.group(2):
                     store_fns.append((rel, m.group(1), body))
 
+    def top_level(body):
+        """the statements of a function body that are not nested in any block: text with every `{...}` group removed"""
+        out, depth = [], 0
+        for ch in body:
+            if ch == "{":
+                depth += 1
+            elif ch == "}":
+                depth -= 1
+            elif depth == 0:
+                out.append(ch)
+        return "".join(out)
+
     def clears(body, seen, depth=0):
-        if "self.call_site_cache.clear()" in body:
-            return True
-        if depth >= 4:
-            return False
-        for h in set(re.findall(r"self\.(\w+)\(", body)):
-            if h in seen or h not in fn_bodies:
-                continue
-            if any(clears(b, seen | {h}, depth + 1) for b in fn_bodies[h]):
+        """the function clears call_site_cache UNCONDITIONALLY: a top-level statement (not inside an if / match / loop block,
+        no `return` or `?` before it) that is the clear itself or a call of a helper that clears unconditionally"""
+        top = top_level(body)
+        for m in re.finditer(r"self\.call_site_cache\.clear\(\);|self\.(\w+)\([^;]*\);", top):
+            before = top[:m.start()]
+            if re.search(r"\breturn\b|\?;|\?\)", before):
+                break
+            if m.group(0).startswith("self.call_site_cache.clear"):
+                return True
+            h = m.group(1)
+            if depth < 4 and h not in seen and h in fn_bodies and any(clears(b, seen | {h}, depth + 1) for b in fn_bodies[h]):
                 return True
         return False
     stores = [k for k in kinds if k[1] == "store"]
